@@ -42,7 +42,7 @@ class Contract:
     def __init__(self, file, qualname, *, types=None, requires=(), cases=None, ensures_all=(),
                  modifies=(), loops=None, inline=False, guarded_by=None, returns_kind=None,
                  ghost=None, props=(), pure=False, locals=None, trusted=False, note="",
-                 allow_raise=(), fresh_result=False, setup=None, verify=True):
+                 allow_raise=(), fresh_result=False, setup=None, verify=True, assume_after=None, no_self_inline=False):
         self.file = file
         self.qualname = qualname
         self.types = dict(types or {})
@@ -64,6 +64,10 @@ class Contract:
         self.fresh_result = fresh_result
         self.setup = setup                  # callable(cx): extra symbolic setup before requires
         self.verify = verify
+        self.no_self_inline = no_self_inline
+        # {local variable: clause}: ASSUMED right after each assignment to that local (listed as an
+        # assumption in evidence), e.g. 'a fresh uuid never collides with an existing study name'
+        self.assume_after = dict(assume_after or {})
 
     @property
     def key(self):
@@ -76,6 +80,7 @@ class Registry:
         self.schemas: dict = {}        # class name -> {field: type string}
         self.specfuncs: dict = {}      # name -> callable(cx, *SV) -> SV
         self.guarded: dict = {}        # class name -> {'lock': field, 'fields': '*'|[..]} for C03
+        self.immutable: set = {'datetime', 'Lock', 'callable'}   # classes whose instances are never mutated
         self.guard_stop: set = set()   # classes whose instances are immutable snapshots (not guarded)
         self.classes: dict = {}        # class name -> real class (filled by the engine)
         self.unknown_callables: dict = {}
@@ -102,5 +107,7 @@ class Registry:
         self.specfuncs.update(other.specfuncs)
         self.guarded.update(other.guarded)
         self.guard_stop |= other.guard_stop
+        self.immutable |= other.immutable
+        self.rt_helpers.update(other.rt_helpers)
         self.unknown_callables.update(other.unknown_callables)
         self.lemmas.extend(other.lemmas)
